@@ -11,7 +11,7 @@ from vlib import cnat, clist
 
 ID = "C18"
 GO_PKG = "./lib/syncx"
-PRIMS = ["sf", "lc", "lim", "ref", "once", "spin", "done", "pool", "rm", "tl", "bar", "mr", "ir"]
+PRIMS = ["sf", "lc", "lim", "ref", "once", "spin", "done", "pool", "rm", "tl", "bar", "mr", "ir", "spinx", "donex"]
 PRIM_NO = {p: i for i, p in enumerate(PRIMS)}
 
 _SK = [
@@ -50,7 +50,7 @@ GEN_SPEC = {"items": [{"kind": "calls", "file": "lib/syncx/" + f, "func": fn, "a
 
 COQ_FILES = ["theories/C18/Props.v", "theories/C18/Link.v", "theories/C18/ProofsSF.v", "theories/C18/ProofsLC.v",
              "theories/C18/ProofsAO.v", "theories/C18/ProofsPool.v", "theories/C18/ProofsRM.v", "theories/C18/ProofsTL.v",
-             "theories/C18/ProofsRef.v", "theories/C18/ProofsMR.v"]
+             "theories/C18/ProofsRef.v", "theories/C18/ProofsMR.v", "theories/C18/ProofsSpin.v"]
 COQ_TARGETS = ["theories/C18/Props.v", "theories/C18/Link.v", "theories/C18/Exec.v"]
 
 QUICK_N = 330
@@ -62,7 +62,10 @@ RULE = ("per primitive (SingleFlight, LockedCalls, Limit, RefResource, OnceGuard
         "ResourceManager, TimeoutLimit, Barrier; round robin) 2-6 goroutines with scripted calls (keys 1-3, fn callbacks "
         "blocking on gates) under a forced schedule of 10-40 steps (start a call / open a gate / advance the virtual "
         "clock), each step followed by a quiescence barrier; non-trivial = at least two calls overlapped in time "
-        "(some invocation lies between another call's invocation and response); distinct = distinct canonical case JSON")
+        "(some invocation lies between another call's invocation and response); distinct = distinct canonical case JSON; "
+        "plus ManagedResource / ImmutableResource streams, boundary sizes (0, negative) and boundary timeouts (MaxInt64, 100 years) "
+        "for Limit/TimeoutLimit, and per run 4 contention stress cases (SpinLock occupancy, concurrent DoneChan.Close; "
+        "2-8 goroutines x 120 ms, thorough: 12 cases x 600 ms)")
 TRUSTED = ["Go runtime semantics of sync.Mutex/RWMutex/WaitGroup/Cond, channels and sync/atomic (the LTS models assume them)",
            "quiescence detection of the driver via runtime.Stack goroutine states (forced interleavings)",
            "timex virtual clock hook (Pool maxAge, Cond elapsed time)"]
@@ -328,7 +331,24 @@ def _gen_pool(rng, tier):
 
 
 def _gen_tl(rng, tier):
-    kind = rng.randrange(6)
+    kind = rng.randrange(8)
+    if kind >= 6:
+        # "wait for ever" / very long timeouts (b selects math.MaxInt64, MaxInt64-1, 100 years, MaxInt64/2, 10000 h):
+        # the parked Borrow is woken by a Return and takes the freed slot -- no timeout, however far the (virtual)
+        # clock has moved meanwhile; a bare Signal with the slot still taken sends it back to waiting
+        b = rng.choice([1, 1, 2, 3, 3, 4, 5])
+        n = rng.choice([1, 1, 2])
+        holders = [[_op(1), _op(2)] for _ in range(n)]
+        scripts = holders + [[_op(0, 4900, b), _op(2)]]
+        w = n
+        sched = [_t(i) for i in range(n)] + [_t(w)]
+        if rng.random() < 0.7:
+            sched.append({"k": "a", "v": rng.choice([1, 50, 3000, 4000])})
+        if rng.random() < 0.4:
+            scripts[0] = [_op(1), _op(3), _op(2)]       # a Signal while the slot is still taken
+            sched += [_t(0), {"k": "a", "v": rng.choice([1, 700])}]
+        sched += [_t(0), _t(w)] + [_t(i) for i in range(1, n)]
+        return {"prim": "tl", "n": n, "m": 0, "scripts": scripts, "sched": sched}
     if kind == 5:     # NewTimeoutLimit(0): always full -- TryBorrow fails, a timed Borrow times out, Return is an error
         to = rng.choice([8, 12, 20])
         ops = [_op(1), _op(2), _op(0, to), _op(1), _op(2)]
@@ -604,6 +624,10 @@ def _directed():
     # and the Borrow stays blocked (before the fix they paired up: 1 outstanding borrow on a limit of 0)
     out.append({"prim": "lim", "n": 0, "m": 0, "scripts": [[_op(0), _op(2)], [_op(2), _op(1), _op(2)]],
                 "sched": [_t(0), _t(1), _t(1), _t(1), _t(0)]})
+    # TimeoutLimit, "wait for ever" (math.MaxInt64) and 100 years: woken by a Return, the Borrow takes the slot
+    for b in (1, 3):
+        out.append({"prim": "tl", "n": 1, "m": 0, "scripts": [[_op(1), _op(3), _op(2)], [_op(0, 4900, b), _op(2)]],
+                    "sched": [_t(0), _t(1), {"k": "a", "v": 3000}, _t(0), {"k": "a", "v": 900}, _t(0), _t(1)]})
     # boundary size 0: nothing can be borrowed, Return is an error, a timed Borrow times out
     out.append({"prim": "lim", "n": 0, "m": 0, "scripts": [[_op(1), _op(2), _op(1)], [_op(2), _op(1)]],
                 "sched": [_t(0), _t(1), _t(0), _t(1), _t(0)]})
@@ -641,11 +665,26 @@ def _directed():
     return out
 
 
+STRESS_MS = {"quick": 120, "search": 120, "thorough": 600}
+
+
+def _stress(rng, tier):
+    """contention stress: nothing to gate inside a spin loop or inside sync.Once, so several goroutines hammer
+    the primitive for a while and count what must never happen (cannot fail on the unchanged code)"""
+    ms = STRESS_MS.get(tier, 120)
+    out = []
+    for prim in ("spinx", "donex"):
+        for g in ([2, rng.randint(3, 8)] if tier != "thorough" else [2, 3, 4, 6, 8, rng.randint(9, 16)]):
+            out.append({"prim": prim, "n": g, "m": ms, "scripts": [], "sched": []})
+    return out
+
+
 def generate(rng, tier, n):
-    cases = list(_directed()) if tier != "search" else []
+    cases = (list(_directed()) if tier != "search" else []) + _stress(rng, tier)
     i = 0
+    rr = [p_ for p_ in PRIMS if p_ not in ("spinx", "donex")]
     while len(cases) < n:
-        prim = PRIMS[i % len(PRIMS)]
+        prim = rr[i % len(rr)]
         i += 1
         if prim == "tl" and (i // len(PRIMS)) % 2 == 1 and tier == "quick":
             prim = rng.choice(["sf", "lc", "pool", "rm"])   # keep the real-time cases few
@@ -743,6 +782,8 @@ def _overlap(obs):
 
 
 def nontrivial(case, obs):
+    if case["prim"] in ("spinx", "donex"):
+        return True
     return _overlap(obs)
 
 
@@ -785,6 +826,10 @@ def bucket(case, obs):
         out.append("ir:error-with-nonnil-value")
     if case["prim"] == "mr" and sum(1 for e in h if e[1] == 2) >= 2:
         out.append("mr:regenerated")
+    if case["prim"] == "tl" and any(o.get("b") for sc in case["scripts"] for o in sc if o["code"] == 0):
+        out.append("tl:boundary-timeout")
+    if case["prim"] in ("spinx", "donex"):
+        out.append("stress")
     if case.get("spec_only"):
         out.append("history-only")
     if any(e[0] == 1000 for e in h):
